@@ -231,8 +231,9 @@ def gen_history(rng, stream, nops):
         elif r < 0.77:
             others = [m for m in MB.values() if m != sel]
             dest = sel if rng.random() < (0.7 if stream == "samecopy" else 0.15) else rng.choice(others)
-            s = gen_set(rng, cnt[sel], True)
-            h.append({"k": "copy", "mb": sel, "set": s, "dest": dest})
+            uidmode = rng.random() < 0.5
+            s = gen_set(rng, cnt[sel], uidmode)
+            h.append({"k": "copy", "uid": uidmode, "mb": sel, "set": s, "dest": dest})
             cnt[dest] += 1
             used.add(dest)
         elif r < 0.9:
@@ -293,7 +294,7 @@ def driver_ops(sc):
             fl = " ".join(o["new"])
             send("A", "%sSTORE %s %s %s" % ("UID " if o["uid"] else "", set_text(o["set"]), o["raw"], "(%s)" % fl if o["paren"] else fl), None)
         elif k == "copy":
-            send("A", "UID COPY %s %s" % (set_text(o["set"]), MBN[o["dest"]]), None)
+            send("A", "%sCOPY %s %s" % ("UID " if o.get("uid", True) else "", set_text(o["set"]), MBN[o["dest"]]), None)
         elif k == "expunge":
             send("A", o["how"], None)
             if o["how"] == "CLOSE":
@@ -380,7 +381,7 @@ def coq_op(o):
         return "(%s %s %s %s %s %s %s)" % ("OUidStore" if o["uid"] else "OStore", C.coq_bool(o["ro"]), C.coq_bool(o["silent"]),
                                           cz(o["mb"]), coq_set(o["set"]), C.coq_str(o["item"]), coq_strs(o["new"]))
     if k == "copy":
-        return "(OUidCopy %s %s %s)" % (cz(o["mb"]), coq_set(o["set"]), cz(o["dest"]))
+        return "(%s %s %s %s)" % ("OUidCopy" if o.get("uid", True) else "OCopy", cz(o["mb"]), coq_set(o["set"]), cz(o["dest"]))
     if k == "append":
         return "(OAppend %s %s)" % (cz(o["mb"]), coq_strs(o["fl"]))
     if k == "expunge":
